@@ -532,8 +532,10 @@ package tacquito
 //@   ghostset armed 0
 //@   requires c != nil && c.Conn != nil && c.Reader != nil && !c.proxy
 //@   requires[C17] ghost.armed == 1 || ghost.dead == 1
-//@   modifies ghost.inPos, ghost.nwrites, ghost.written, ghost.md5acc
+//@   requires[C05] ghost.sync == 1
+//@   modifies ghost.inPos, ghost.nwrites, ghost.written, ghost.md5acc, ghost.sync
 //@   ensures[C17] ghost.armed == 0
+//@   ensures[C05] err == nil ==> ghost.sync == 1
 //@   ensures[C05,C07] err == nil ==> res != nil && res.Header != nil && valid.Header(*res.Header)
 //@   ensures[C05] let p0 = old(ghost.inPos) in let L = instream(p0+8)*16777216 + instream(p0+9)*65536 + instream(p0+10)*256 + instream(p0+11) in
 //@        (err == nil ==> (L <= 65536 && ghost.inPos == p0 + 12 + L && len(res.Body) == L && res.Header.Length == L))
@@ -612,7 +614,8 @@ package tacquito
 //@ func (s *Server) handle(ctx context.Context, c *crypter, h Handler)
 //@   requires s != nil && s.loggerProvider != nil && ctx != nil && h != nil
 //@   requires c != nil && c.Conn != nil && c.Reader != nil && !c.proxy
-//@   modifies ghost.inPos, ghost.nwrites, ghost.written, ghost.md5acc, ghost.gauge, ghost.armed, ghost.dead, ghost.reads, ghost.handled, ghost.replies, ghost.closed
+//@   requires[C05] ghost.sync == 1
+//@   modifies ghost.inPos, ghost.nwrites, ghost.written, ghost.md5acc, ghost.gauge, ghost.armed, ghost.dead, ghost.reads, ghost.handled, ghost.replies, ghost.closed, ghost.sync
 //@   ensures[C07,C17] ghost.closed == old(ghost.closed) + 1
 //@   ensures[C07] ghost.handled - old(ghost.handled) <= ghost.reads - old(ghost.reads)
 //@   ensures[C07] ghost.replies - old(ghost.replies) == ghost.handled - old(ghost.handled)
@@ -620,6 +623,7 @@ package tacquito
 //@   loop 1 invariant wfSessions(sessionProvider) && fresh(sessionProvider)
 //@   loop 1 invariant[C08,C20] allLive(sessionProvider)
 //@   loop 1 invariant[C07] ghost.closed == old(ghost.closed)
+//@   loop 1 invariant[C05] ghost.sync == 1
 //@   loop 1 invariant[C07] ghost.reads - old(ghost.reads) == ghost.handled - old(ghost.handled)
 //@   loop 1 invariant[C07] ghost.replies - old(ghost.replies) == ghost.handled - old(ghost.handled)
 //@   loop 1 invariant[C20] ghost.gauge == upd(old(ghost.gauge), sessionsActive, old(ghost.gauge)[sessionsActive] + len(sessionProvider.known))
@@ -639,7 +643,8 @@ package tacquito
 //@ func (s *Server) serve(ctx context.Context, conn net.Conn)
 //@   ghostinc spawned
 //@   requires s != nil && s.loggerProvider != nil && s.SecretProvider != nil && ctx != nil && conn != nil && !s.proxy
-//@   modifies s.waitGroup.active, ghost.inPos, ghost.nwrites, ghost.written, ghost.md5acc, ghost.gauge, ghost.armed, ghost.dead, ghost.reads, ghost.handled, ghost.replies, ghost.closed, ghost.wgDones
+//@   requires[C05] ghost.sync == 1
+//@   modifies s.waitGroup.active, ghost.inPos, ghost.nwrites, ghost.written, ghost.md5acc, ghost.gauge, ghost.armed, ghost.dead, ghost.reads, ghost.handled, ghost.replies, ghost.closed, ghost.wgDones, ghost.sync
 //@   ensures[C17,C20] ghost.wgDones == old(ghost.wgDones) + 1
 //@   ensures[C07,C13,C17] ghost.closed == old(ghost.closed) + 1
 //@   ensures[C20] ghost.gauge == upd(old(ghost.gauge), waitgroupActive, old(ghost.gauge)[waitgroupActive] - 1)
